@@ -75,7 +75,7 @@ def check(pid, tier, lines, gen_counts):
         if thorough:
             _need(out, "payload lengths 0..8000", sum(v for k, v in t.items() if k.startswith("len:")), 8001)
     if pid == "C12":
-        _need(out, "image strings of the pool", len(pref("svgimg:")), 27)
+        _need(out, "image strings of the pool", len(pref("svgimg:")), 88)
         if thorough:
             _need(out, "(version, shape) cells", len(pref("svgver:")), 240)
     if pid == "C16":
